@@ -108,6 +108,13 @@ impl World {
         self.defs.iter().flat_map(|d| d.regs.iter().map(|r| (r.rid.clone(), r.def.clone()))).collect()
     }
 
+    /// the cached pool as it is (child processes of the fault injection: the parent validated it already)
+    pub fn load_quiet() -> World {
+        let path = format!("{POOL_DIR}/pool-v2.json");
+        let defs: Vec<Def> = serde_json::from_str(&std::fs::read_to_string(&path).expect("pool file")).expect("pool json");
+        World { defs }
+    }
+
     /// load the cached pool, regenerate it when absent, stale or unusable on the current tree
     pub fn load() -> World {
         let path = format!("{POOL_DIR}/pool-v2.json");
